@@ -102,7 +102,9 @@ New(c)         == corpus' = Put(corpus, c, {}) /\ UNCHANGED <<last, plants, memo
 AddContent(c, key, e) == /\ PureGrow(e)
                          /\ corpus' = Put(corpus, c, Get(corpus, c, {}) \cup {key})
                          /\ UNCHANGED <<last, plants, memo, scores, retained>>
-NormalizeRet(e) == PureGrow(e) /\ e.docs[1] = e.docs[2] /\ UNCHANGED cvars
+(* what Normalize returned earlier is the caller's: a later call leaves it as it was (held; recorded from the very slices) *)
+HeldIntact(e) == "held" \in DOMAIN e => e.held
+NormalizeRet(e) == PureGrow(e) /\ e.docs[1] = e.docs[2] /\ HeldIntact(e) /\ UNCHANGED cvars
 Plant(in, p)   == plants' = Put(plants, in, Get(plants, in, {}) \cup {p}) /\ UNCHANGED <<corpus, last, memo, scores, retained>>
 
 ---------------------------------------------------------------------------
